@@ -16,6 +16,10 @@ Fragment kinds (what the mate-pairing library delivers is taken as given, the st
   orphan_r2   only R2 present (mate announced on the same contig, absent)      invalid (no R1)
   orphan_r1   only R1 present, paired bit set, mate absent                     valid
   secondary   a secondary alignment of an extra read (outside the claim)
+  sec_only    nothing but a supplementary alignment (outside the claim): the contig has reads, yet no molecule is written
+  orphan_unmapped  an unmapped read placed on the contig whose mapped mate is absent (idxstats: 0 mapped, 1 unmapped)
+  dup_lane    copy of the previous pair sequenced on another lane / flowcell: same molecule, different read group,
+              and that read group is not the first fragment of any molecule
   unplaced_pair / unplaced_single   unmapped, no position                      invalid
 """
 import random
@@ -26,7 +30,8 @@ SMALL_LENGTHS = [2500, 40_000, 99_999]
 BIG_LENGTHS = [100_000, 100_001, 250_000]
 THRESHOLD = 100_000
 
-PLACED_KINDS = ['pair', 'pair_rev', 'dup', 'single', 'nomotif', 'qcfail', 'half', 'orphan_r2', 'orphan_r1', 'secondary']
+PLACED_KINDS = ['pair', 'pair_rev', 'dup', 'single', 'nomotif', 'qcfail', 'half', 'orphan_r2', 'orphan_r1', 'secondary',
+                'dup_lane', 'orphan_unmapped', 'sec_only']
 SIMPLE_KINDS = ['pair', 'single', 'pair_rev']
 UNPLACED_KINDS = ['unplaced_pair', 'unplaced_single']
 
@@ -46,7 +51,10 @@ def layout_from_scenario(scn, rng, kinds=None):
     contigs = []
     for nm, c in zip(names, scn['contigs']):
         ln = rng.choice(BIG_LENGTHS if c['big'] else SMALL_LENGTHS)
-        ks = [rng.choice(kinds or PLACED_KINDS) for _ in range(c['n'])]
+        if c.get('um'):          # the contig's only records are placed unmapped reads
+            ks = ['orphan_unmapped'] * c['n']
+        else:
+            ks = [rng.choice(kinds or PLACED_KINDS) for _ in range(c['n'])]
         contigs.append({'name': nm, 'len': ln, 'big': bool(c['big']), 'kinds': ks})
     star = [rng.choice(UNPLACED_KINDS) for _ in range(scn['nstar'])]
     return {'contigs': contigs, 'star': star}
@@ -112,11 +120,14 @@ def build(layout, rng, method='nla'):
             name = newname(kind)
             tg = tags(sample, umi)
             cn = c['name']
-            if kind == 'dup' and prev is None:
+            if kind in ('dup', 'dup_lane') and prev is None:
                 kind = 'pair'
-            if kind in ('pair', 'dup', 'nomotif', 'qcfail'):
-                if kind == 'dup':
+            if kind in ('pair', 'dup', 'dup_lane', 'nomotif', 'qcfail'):
+                if kind in ('dup', 'dup_lane'):
                     pos, l1, l2, tg = prev['pos'], prev['l1'], prev['l2'], dict(prev['tg'])
+                if kind == 'dup_lane':
+                    tg['La'] = str(5 + serial[0] % 4)     # lanes 5..8 on a second flowcell are used by nothing else
+                    tg['Fc'] = 'FCY2'
                 s1 = _no_catg(rng, l1) if kind == 'nomotif' else _seq(rng, l1, start='CATG')
                 p2 = pos + 40
                 r1 = bamgen.make_read(header, name, cn, pos, s1, _qual(rng, l1), paired=True, proper=True, read1=True,
@@ -124,7 +135,7 @@ def build(layout, rng, method='nla'):
                 r2 = bamgen.make_read(header, name, cn, p2, _seq(rng, l2), _qual(rng, l2), paired=True, proper=True, read2=True,
                                       reverse=True, mate_contig=cn, mate_pos=pos, tlen=-(40 + l2), qcfail=(kind == 'qcfail'), tags=tg)
                 reads += [r1, r2]
-                valid = {'pair': True, 'dup': True, 'qcfail': False, 'nomotif': method != 'nla'}[kind]
+                valid = {'pair': True, 'dup': True, 'dup_lane': True, 'qcfail': False, 'nomotif': method != 'nla'}[kind]
                 note(name, 1, 1, valid, kind, cn)
                 note(name, 2, 2, valid, kind, cn)
                 if kind == 'pair':
@@ -158,6 +169,13 @@ def build(layout, rng, method='nla'):
                                               proper=True, read1=True, mate_contig=cn, mate_pos=pos + 40, mate_reverse=True,
                                               tlen=40 + l2, tags=tg))
                 note(name, 1, 0, True, kind, cn)
+            elif kind == 'orphan_unmapped':
+                reads.append(bamgen.make_read(header, name, cn, pos, _seq(rng, l2), _qual(rng, l2), paired=True, read2=True,
+                                              unmapped=True, mate_contig=cn, mate_pos=pos, tags=tg))
+                note(name, 2, 0, False, kind, cn)
+            elif kind == 'sec_only':
+                reads.append(bamgen.make_read(header, name, cn, pos, _seq(rng, l2), _qual(rng, l2), supplementary=True, tags=tg))
+                note(name, 0, 0, False, 'supplementary_record', cn)
             elif kind == 'secondary':
                 # a valid single read plus a secondary alignment of another read (outside the claim)
                 reads.append(bamgen.make_read(header, name, cn, pos, _seq(rng, l1, start='CATG'), _qual(rng, l1), tags=tg))
